@@ -1579,4 +1579,98 @@ def switch_bbox_epsg_axis_order""", 'C01.a'),
             return self._single_call(func, args[0], use_result_objects)""", """        if 1 == len(args):
             return self._single_call(func, args[0], use_result_objects)""", 'operands swapped'),
 
+    # ---- round 5 repairs: each reverted
+    M('M-C01k-revert-D37', 'mapproxy/source/tile.py', """        if not bbox_equals(_bbox, query.bbox,
+                           abs((query.bbox[2] - query.bbox[0]) / query.size[0] / 10),
+                           abs((query.bbox[3] - query.bbox[1]) / query.size[1] / 10)):
+            raise InvalidSourceQuery('BBOX does not align to tile')
+""", "", 'C01.k', 'revert of fix D37'),
+    E('E-C01k-test-first', 'mapproxy/source/tile.py', """        if grid != (1, 1):
+            raise InvalidSourceQuery('BBOX does not align to tile')
+""", """        if (1, 1) != grid:
+            raise InvalidSourceQuery('BBOX does not align to tile')
+""", 'operands swapped'),
+    M('M-C15j-revert-D38', 'mapproxy/util/async_.py', """        for _ in (self.pool or ()):
+            self.task_queue.put(None)
+        self.pool = None""", """        for _ in range(self.pool_size):
+            self.task_queue.put(None)""", 'C15.j', 'revert of fix D38'),
+    E('E-C15j-guarded-count', 'mapproxy/util/async_.py', """        for _ in (self.pool or ()):
+            self.task_queue.put(None)
+        self.pool = None""", """        if self.pool:
+            for _ in range(self.pool_size):
+                self.task_queue.put(None)
+        self.pool = None""", 'counted by size, but only for a started pool'),
+    M('M-C19g-revert-D39', 'mapproxy/script/defrag.py', """        for ext in ('.bundle', '.bundlx', '.lck'):
+            if os.path.exists(tmp_bundle + ext):
+                os.remove(tmp_bundle + ext)
+""", "", 'C19.g', 'revert of fix D39'),
+    M('M-C19g-index-forgotten', 'mapproxy/script/defrag.py', """        for ext in ('.bundle', '.bundlx', '.lck'):""", """        for ext in ('.bundle', '.lck'):""", 'C19.g', 'the V1 index of the left-over bundle stays'),
+    M('M-C13j-revert-D40', 'mapproxy/cache/tile.py', """        if self._expire_timestamp is not None:
+            return self._expire_timestamp
+        if self._refresh_before:
+            from mapproxy.seed.config import before_timestamp_from_options
+            return before_timestamp_from_options(self._refresh_before)
+        return None""", """        if self._refresh_before:
+            from mapproxy.seed.config import before_timestamp_from_options
+            return before_timestamp_from_options(self._refresh_before)
+        return self._expire_timestamp""", 'C13.j|C12.n', 'revert of fix D40'),
+    E('E-C13j-else-form', 'mapproxy/cache/tile.py', """        if self._expire_timestamp is not None:
+            return self._expire_timestamp
+        if self._refresh_before:
+            from mapproxy.seed.config import before_timestamp_from_options
+            return before_timestamp_from_options(self._refresh_before)
+        return None""", """        if self._expire_timestamp is None:
+            if self._refresh_before:
+                from mapproxy.seed.config import before_timestamp_from_options
+                return before_timestamp_from_options(self._refresh_before)
+            return None
+        return self._expire_timestamp""", 'branches swapped'),
+    M('M-C12m-revert-D41', 'mapproxy/seed/cleanup.py', """            if old.isdigit() and current.isdigit():
+                old, current = int(old), int(current)
+""", "", 'C12.m', 'revert of fix D41'),
+    M('M-C20o-revert-D45', 'mapproxy/util/times.py', """    if date[0] < 100:""", """    if date[0] < 1970:""", 'C20.o', 'revert of fix D45'),
+    M('M-C16j-revert-D44', 'mapproxy/service/wms.py', """        size = request.params.size
+        if size is not None and (size[0] <= 0 or size[1] <= 0):
+            # (the product of two negative values is within every limit)
+            request.prevent_image_exception = True
+            raise RequestError("invalid image size", request=request)
+
+""", "", 'C16.j', 'revert of fix D44'),
+    M('M-C16j-only-width', 'mapproxy/service/wms.py', """        if size is not None and (size[0] <= 0 or size[1] <= 0):""",
+      """        if size is not None and size[0] <= 0:""", 'C16.j', 'the height is not checked'),
+    E('E-C16j-less-than-one', 'mapproxy/service/wms.py', """        if size is not None and (size[0] <= 0 or size[1] <= 0):""",
+      """        if size is not None and (size[0] < 1 or size[1] < 1):""", 'other spelling of not positive'),
+    M('M-C20p-revert-D46', 'mapproxy/service/wms.py', """        if not result.cacheable:
+            resp.cache_headers(no_cache=True)
+        elif query.tiled_only and isinstance(result.cacheable, CacheInfo):
+            cache_info = result.cacheable
+            resp.cache_headers(cache_info.timestamp, etag_data=(cache_info.timestamp, cache_info.size),
+                               max_age=self.max_tile_age)
+            resp.make_conditional(map_request.http)
+""", """        if query.tiled_only and isinstance(result.cacheable, CacheInfo):
+            cache_info = result.cacheable
+            resp.cache_headers(cache_info.timestamp, etag_data=(cache_info.timestamp, cache_info.size),
+                               max_age=self.max_tile_age)
+            resp.make_conditional(map_request.http)
+
+        if not result.cacheable:
+            resp.cache_headers(no_cache=True)
+""", 'C20.p', 'revert of fix D46'),
+    M('M-C13k-revert-D42', 'mapproxy/util/times.py', """    if date.tzinfo is not None:
+        # a time with a zone (2009-06-09T10:57:00Z in a YAML file) is that moment,
+        # not the same wall-clock time in the zone of the server
+        return date.timestamp()
+""", "", 'C13.k', 'revert of fix D42'),
+    M('M-C13l-revert-D43', 'mapproxy/cache/redis.py', """- self.ttl + int(pipe_res[0])""", """- self.ttl - int(pipe_res[0])""", 'C13.l', 'revert of fix D43'),
+    M('M-C12k-revert-D35', 'mapproxy/seed/cleanup.py', """            if has_level_location(task.tile_manager.cache, task.levels):""",
+      """            if callable(getattr(task.tile_manager.cache, 'level_location', None)):""", 'C12.k', 'revert of fix D35'),
+    M('M-C12l-revert-D36-cleanup', 'mapproxy/seed/config.py', """                        remove_all = True
+                    else:""", """                        remove_all = self.remove_all = True
+                    else:""", 'C12.l', 'revert of fix D36 (clean-up side): the flag is stored on the entry again'),
+    M('M-C12l-revert-D36-seed', 'mapproxy/seed/config.py', """                if not tile_manager.cache.supports_timestamp:
+                    refresh_all = True
+""", """                if not tile_manager.cache.supports_timestamp:
+                    refresh_all = self.refresh_all = True
+""", 'C12.l|C13.m', 'revert of fix D36 (seed side)'),
+
 ]
